@@ -389,7 +389,7 @@ func firstLine(s string) string {
 func init() {
 	Register(&sim.Check{
 		ID: "C16", Level: "exploration", Run: runC16,
-		Rule: "one applied transaction T1 (timeout 1/2/5 s) and 1-3 client tasks drawn from {Confirm(T1), Cancel(T1), Confirm(other), Cancel(other), SetTx(T2)} started at offsets around the deadline; the seeded cooperative scheduler interleaves them and the rollback-timer goroutine at the yield points in pkg/datastore/types (every manager-lock acquisition, timer wake-up, the unsynchronised timer reset, rollback entry) and decides when the fake clock advances. Oracle: no panic / process death / livelock, exactly-once resolution, agreement with client answers, T2 not un-registered, porcupine linearizability against the slot model. Non-trivial = >=2 racing tasks; distinct = hash of outcomes + released-task sequence.",
+		Rule: "one applied transaction T1 (timeout 1/2/5 s) and 1-3 client tasks drawn from {Confirm(T1), Cancel(T1), Confirm(other), Cancel(other), SetTx(T2)} started at offsets around the deadline; the seeded cooperative scheduler interleaves them and the rollback-timer goroutine at the yield points in pkg/datastore/types (every manager-lock acquisition, timer wake-up, the unsynchronised timer reset, rollback entry) and decides when the fake clock advances. In a quarter of the runs the competing TransactionSet reuses T1's id (only Confirm(T1) and that Set race the timer then; runs whose Confirm may have hit the successor are not judged). Oracle: no panic / process death / livelock, exactly-once resolution, agreement with client answers, T2 not un-registered, porcupine linearizability against the slot model. Non-trivial = >=2 racing tasks; distinct = hash of outcomes + released-task sequence.",
 		Real: realCore, Stub: stubCore, CrashIsViolation: true, HangIsViolation: true,
 		RequiredProbes: []string{"yield-tm.confirm", "yield-tm.cancel", "yield-timer.fired", "yield-tm.rollback", "yield-tm.register", "expiry-raced"},
 		QuickSeconds:   30, ThoroughSeconds: 600,
